@@ -9,6 +9,7 @@ from __future__ import annotations
 import ast
 
 from harness.common import TranslateError, ast_digest, src_text
+from translate.c13_nullstr import module_constants
 
 
 def _const_int(node) -> int:
@@ -40,6 +41,72 @@ def _fmt_widths(fmt: str) -> list[int]:
         return [w[ch] for ch in fmt[1:]]
     except KeyError as e:
         raise TranslateError(f'struct format {fmt!r}: unsupported code {e}')
+
+
+def _local_env(fn: ast.FunctionDef) -> dict:
+    """Locals of a function that are bound exactly once, by a plain `name = <expr>`."""
+    stores: dict[str, int] = {}
+    for n in ast.walk(fn):
+        if isinstance(n, ast.Name) and isinstance(n.ctx, (ast.Store, ast.Del)):
+            stores[n.id] = stores.get(n.id, 0) + 1
+    env = {}
+    for n in ast.walk(fn):
+        if isinstance(n, ast.Assign) and len(n.targets) == 1 and isinstance(n.targets[0], ast.Name) and stores.get(n.targets[0].id) == 1:
+            env[n.targets[0].id] = n.value
+    return env
+
+
+def _resolve(node, *envs):
+    """Follow a name through single-assignment locals, then module constants."""
+    for _ in range(6):
+        if isinstance(node, ast.Name):
+            for env in envs:
+                if node.id in env:
+                    node = env[node.id]
+                    break
+            else:
+                return node
+        else:
+            return node
+    return node
+
+
+def _str_const(node, *envs):
+    node = _resolve(node, *envs)
+    return node.value if isinstance(node, ast.Constant) and isinstance(node.value, str) else None
+
+
+def _struct_site(call: ast.Call, op: str, *envs):
+    """`struct.<op>(fmt, *args)`, `<Struct object>.<op>(*args)` (the object may be a local or module constant bound to
+    `struct.Struct(fmt)`), and for op == 'unpack' also `struct_read(fmt, file)`  ->  (fmt, args) or None."""
+    f = call.func
+    if call.keywords:
+        return None
+    if isinstance(f, ast.Attribute) and f.attr == op:
+        if isinstance(f.value, ast.Name) and f.value.id == 'struct' and call.args:
+            fmt = _str_const(call.args[0], *envs)
+            return (fmt, call.args[1:]) if fmt is not None else None
+        obj = _resolve(f.value, *envs)
+        if isinstance(obj, ast.Call) and not obj.keywords and len(obj.args) == 1 and (
+                (isinstance(obj.func, ast.Attribute) and obj.func.attr == 'Struct' and isinstance(obj.func.value, ast.Name) and obj.func.value.id == 'struct')
+                or (isinstance(obj.func, ast.Name) and obj.func.id == 'Struct')):
+            fmt = _str_const(obj.args[0], *envs)
+            return (fmt, call.args) if fmt is not None else None
+    if op == 'unpack' and isinstance(f, ast.Name) and f.id == 'struct_read' and len(call.args) == 2:
+        fmt = _str_const(call.args[0], *envs)
+        return (fmt, call.args[1:]) if fmt is not None else None
+    return None
+
+
+def _sites(fn: ast.FunctionDef, op: str, consts: dict) -> list:
+    env = _local_env(fn)
+    out = []
+    for n in ast.walk(fn):
+        if isinstance(n, ast.Call):
+            r = _struct_site(n, op, env, consts)
+            if r is not None:
+                out.append((n, r[0], r[1]))
+    return sorted(out, key=lambda t: (t[0].lineno, t[0].col_offset))
 
 
 def _split_site(tree) -> tuple[str, int, dict]:
@@ -97,11 +164,10 @@ def translate() -> tuple[str, dict]:
     tree = ast.parse(src_text('vpk.py'))
     side: dict = {}
     consts: dict[str, int] = {}
-    for n in tree.body:
-        if isinstance(n, ast.AnnAssign) and isinstance(n.target, ast.Name) and n.target.id in ('VPK_SIG', 'DIR_ARCH_INDEX', 'MAX_PRELOAD') and n.value is not None:
-            consts[n.target.id] = _const_int(n.value)
-        if isinstance(n, ast.Assign) and len(n.targets) == 1 and isinstance(n.targets[0], ast.Name) and n.targets[0].id in ('VPK_SIG', 'DIR_ARCH_INDEX', 'MAX_PRELOAD'):
-            consts[n.targets[0].id] = _const_int(n.value)
+    mconsts = module_constants(tree)
+    for nm in ('VPK_SIG', 'DIR_ARCH_INDEX', 'MAX_PRELOAD'):
+        if nm in mconsts:
+            consts[nm] = _const_int(_resolve(mconsts[nm], mconsts))
     for c in ('VPK_SIG', 'DIR_ARCH_INDEX'):
         if c not in consts:
             raise TranslateError(f'constant {c} not found')
@@ -114,20 +180,22 @@ def translate() -> tuple[str, dict]:
     fwrite = _find(finfo.body, ast.FunctionDef, 'write')
     side['digests'] = {f.name: ast_digest(f) for f in (load, wdir, newf, addf, fwrite)}
 
-    # ---------------- reader: struct.Struct('<IHHIIH'), unpack target order, sentinels
-    st = _calls(load, lambda c: _is_attr_call(c, 'struct', 'Struct'))
-    if len(st) != 1 or not (st[0].args and isinstance(st[0].args[0], ast.Constant) and isinstance(st[0].args[0].value, str)):
-        raise TranslateError('load_dirfile: entry struct.Struct(<literal>) not recognised')
-    read_fmt = st[0].args[0].value
-    read_fields = None
+    # ---------------- reader: the unpack sites (struct.unpack / Struct object / struct_read), target order, sentinels
+    usites = _sites(load, 'unpack', mconsts)
+    targets = {}
     for n in ast.walk(load):
-        if isinstance(n, ast.Assign) and isinstance(n.targets[0], ast.Tuple) and isinstance(n.value, ast.Call) \
-                and isinstance(n.value.func, ast.Attribute) and n.value.func.attr == 'unpack':
-            read_fields = [e.id for e in n.targets[0].elts if isinstance(e, ast.Name)]
-    if read_fields is None or len(read_fields) != len(_fmt_widths(read_fmt)):
+        if isinstance(n, ast.Assign) and len(n.targets) == 1 and isinstance(n.targets[0], ast.Tuple) and isinstance(n.value, ast.Call):
+            targets[id(n.value)] = [e.id if isinstance(e, ast.Name) else None for e in n.targets[0].elts]
+    in_loops = {id(c) for f in ast.walk(load) if isinstance(f, ast.For) for b in f.body for c in ast.walk(b)}
+    entry_sites = [(c, fmt) for c, fmt, _ in usites if id(c) in in_loops]
+    head_sites = [(c, fmt) for c, fmt, _ in usites if id(c) not in in_loops]
+    if len(entry_sites) != 1 or id(entry_sites[0][0]) not in targets:
+        raise TranslateError('load_dirfile: exactly one entry unpack site `a, b, ... = <struct>.unpack(...)` inside the tree loops expected')
+    read_fmt = entry_sites[0][1]
+    read_fields = targets[id(entry_sites[0][0])]
+    if None in read_fields or len(read_fields) != len(_fmt_widths(read_fmt)):
         raise TranslateError('load_dirfile: entry.unpack target tuple not recognised')
-    hdr = _calls(load, lambda c: isinstance(c.func, ast.Name) and c.func.id == 'struct_read')
-    hdr_fmts = [c.args[0].value for c in hdr if c.args and isinstance(c.args[0], ast.Constant)]
+    hdr_fmts = [fmt for _, fmt in head_sites]
     if not hdr_fmts or hdr_fmts[0] != '<III':
         raise TranslateError(f'load_dirfile: header format {hdr_fmts!r} not recognised')
     # FileInfo(self, directory, file, ext, crc, arch_ind, offset, arch_len, dirfile.read(index_len))
@@ -151,15 +219,15 @@ def translate() -> tuple[str, dict]:
         raise TranslateError('load_dirfile: sentinel tests (arch_ind == DIR_ARCH_INDEX / end != 0xffff) not recognised')
 
     # ---------------- writer
-    packs = _calls(wdir, lambda c: _is_attr_call(c, 'struct', 'pack'))
-    entry_pack = [c for c in packs if c.args and isinstance(c.args[0], ast.Constant) and len(c.args) == 7]
-    head_pack = [c for c in packs if c.args and isinstance(c.args[0], ast.Constant) and len(c.args) == 4]
+    psites = _sites(wdir, 'pack', mconsts)
+    entry_pack = [(fmt, a) for _, fmt, a in psites if len(a) == 6]
+    head_pack = [(fmt, a) for _, fmt, a in psites if len(a) == 3]
     if len(entry_pack) != 1 or len(head_pack) != 1:
-        raise TranslateError('write_dirfile: struct.pack sites not recognised')
-    write_fmt = entry_pack[0].args[0].value
-    write_fields = [ast.unparse(a) for a in entry_pack[0].args[1:]]
-    write_term = _const_int(entry_pack[0].args[6])
-    if head_pack[0].args[0].value != '<III' or ast.unparse(head_pack[0].args[1]) != 'VPK_SIG':
+        raise TranslateError('write_dirfile: struct pack sites (one header with 3 values, one entry with 6) not recognised')
+    write_fmt = entry_pack[0][0]
+    write_fields = [ast.unparse(a) for a in entry_pack[0][1]]
+    write_term = _const_int(_resolve(entry_pack[0][1][5], _local_env(wdir), mconsts))
+    if head_pack[0][0] != '<III' or ast.unparse(head_pack[0][1][0]) != 'VPK_SIG':
         raise TranslateError('write_dirfile: header pack not recognised')
     write_dir_sentinel = None
     for n in ast.walk(wdir):
@@ -175,11 +243,7 @@ def translate() -> tuple[str, dict]:
     fields_match = write_fields[:5] == want_w and read_fields == want_r and \
         fi_args == ['self', 'directory', 'file', 'ext', 'crc', 'arch_ind', 'offset', 'arch_len', 'dirfile.read(index_len)']
 
-    # ---------------- null strings: ' ' stands for ''
-    wn = _find(tree.body, ast.FunctionDef, '_write_nullstring')
-    itn = _find(tree.body, ast.FunctionDef, 'iter_nullstr')
-    blank_written = any(isinstance(n, ast.Constant) and n.value == b' \x00' for n in ast.walk(wn))
-    blank_read = any(isinstance(n, ast.Compare) and ast.unparse(n) == "string == ' '" for n in ast.walk(itn))
+    # (null strings: translate/c13_nullstr.py)
 
     # ---------------- FileInfo.write placement sites (booleans)
     src_w = [ast.unparse(s) for s in ast.walk(fwrite) if isinstance(s, ast.stmt)]
@@ -213,7 +277,7 @@ def translate() -> tuple[str, dict]:
                 read_dir_sentinel=read_dir_sentinel, write_dir_sentinel=write_dir_sentinel, read_term=read_term,
                 write_term=write_term, zero_len_resets_offset=zero_len_resets_offset, fields_match=fields_match,
                 tail_to_footer=tail_to_footer, preload_capped=cap and split_ok, chk_idx=chk_idx, chk_name=chk_name,
-                blank_written=blank_written, blank_read=blank_read, ext_split=[split_kind, split_sep, split_info],
+                ext_split=[split_kind, split_sep, split_info],
                 lines={'load_dirfile': load.lineno, 'write_dirfile': wdir.lineno, 'FileInfo.write': fwrite.lineno,
                        'new_file': newf.lineno, 'add_file': addf.lineno})
     b = lambda x: 'true' if x else 'false'
@@ -231,7 +295,6 @@ def translate() -> tuple[str, dict]:
         f'Definition g_entry_widths_read : list N := {nl(_fmt_widths(read_fmt))}.',
         f'Definition g_entry_fields_match : bool := {b(fields_match)}.',
         f'Definition g_zero_len_resets_offset : bool := {b(zero_len_resets_offset)}.',
-        f'Definition g_blank_is_space : bool := {b(blank_written and blank_read)}.',
         f'Definition g_max_preload : option N := {"Some " + str(max_pre) if max_pre is not None else "None"}.',
         f'Definition g_preload_capped : bool := {b(cap and split_ok)}.',
         f'Definition g_tail_to_footer : bool := {b(tail_to_footer)}.',
